@@ -343,6 +343,6 @@ CONDITIONS = [
                 "7 choice kinds (line 1/2, call f/g, return, raise-caught, raise-propagate), 3 functions, 8 tracepoint subsets; one thread"),
     dict(fn="two_threads", cubes={"quick": ["tp == %d and c1 == 2 and c2 == %d and c3 == 4 and d3 == 4" % (t, c) for t in (0, 1, 2, 4) for c in (0, 2)],
                                   "thorough": ["tp == %d and c1 == %d and c2 == %d" % (t, c, d) for t in range(8) for c in (0, 2, 3) for d in range(7)]},
-         twins=["reach", "mutant:never_clear@tp == 0 and c1 == 2 and c2 == 0 and c3 == 4 and d3 == 4"],
+         twins=["reach", "mutant:never_close@tp == 0 and c1 == 2 and c2 == 0 and c3 == 4 and d3 == 4"],
          bounds="two sequential threads, 3 choices each (quick: first thread starts call f then line 1 | call f, both third choices = return), second thread with a fresh or a reused ident"),
 ]
